@@ -160,7 +160,7 @@ func H_C44_normalize() {
 
 // H_C44_union_intersect: Union selects a path iff some operand does, Intersect iff all do.
 //
-//verif:props=C44 bounds=two-masks-of<=2-paths-of<=2-bytes;probe<=3-bytes(quick)/paths<=3-bytes;probe<=4(thorough) ifconv=1 maxsteps=6000000
+//verif:props=C44 bounds=two-masks-of<=2-paths-of<=2-bytes;probe<=3-bytes(quick)/paths<=3-bytes;probe<=4(thorough) ifconv=1 maxsteps=6000000 deadline=900
 func H_C44_union_intersect() {
 	L := 2
 	if nd.Thorough() {
